@@ -88,13 +88,22 @@ HUGE = ["PT" + "9" * 400 + "S", "-PT" + "9" * 400 + ".5S"]
 ORACLE_JSON_OPS = JSON_OPS + ["emptylist", "emptyobj"]      # judged by the oracle only (the model has no non-emptiness rules)
 
 
-def damage_json(doc: dict, rng: random.Random, ops: Optional[List[str]] = None) -> Optional[Tuple[str, Tuple]]:
-    """apply one damage operator in place; returns (operator, path) — the first path element selects the identifiable"""
+JSON_SWEEP_OPS = ["delete", "null", "wrongtype", "empty", "emptylist", "emptyobj", "forbidden"]
+
+
+def damage_json(doc: dict, rng: random.Random, ops: Optional[List[str]] = None, sweep=None) -> Optional[Tuple[str, Tuple]]:
+    """apply one damage operator in place; returns (operator, path) — the first path element selects the identifiable.
+    `sweep = (k, op)`: apply `op` at the k-th position (document order) instead of drawing both at random"""
     paths = [p for p in json_paths(doc) if len(p) >= 3]
-    rng.shuffle(paths)
+    if sweep is not None:
+        if sweep[0] >= len(paths):
+            return None
+        paths = [paths[sweep[0]]]
+    else:
+        rng.shuffle(paths)
     for path in paths[:40]:
         v = jget(doc, path)
-        op = rng.choice(ops or JSON_OPS)
+        op = sweep[1] if sweep is not None else rng.choice(ops or JSON_OPS)
         last = path[-1]
         if op == "emptylist":
             if isinstance(v, list) and v:
@@ -385,7 +394,10 @@ def check_case(case: dict) -> Optional[C.Failing]:
     objs, doc = make_doc(case["seed"], case["index"], depth)
     want = {o.id: canon.canon(o) for o in objs}
     if fmt == "json":
-        dmg = damage_json(doc, rng, ORACLE_JSON_OPS) if "path" not in case else _redo_json(doc, case)
+        if "sweep" in case:
+            dmg = damage_json(doc, rng, ORACLE_JSON_OPS, tuple(case["sweep"]))
+        else:
+            dmg = damage_json(doc, rng, ORACLE_JSON_OPS) if "path" not in case else _redo_json(doc, case)
         if dmg is None:
             return None
         op, path = dmg
@@ -555,6 +567,14 @@ def oracle(ctx: C.Ctx, cov: C.Coverage, n: Optional[int] = None, seed: Optional[
             chosen.append(i)
         if len(chosen) >= (2 if ctx.tier == "quick" else 12):
             break
+    for i in chosen[:1 if ctx.tier == "quick" else 6]:
+        _, doc_ = make_doc(seed, i, depth)
+        for k in range(len([p for p in json_paths(doc_) if len(p) >= 3])):
+            for op in JSON_SWEEP_OPS:
+                f = check_case({"seed": seed, "index": i, "fmt": "json", "depth": depth, "sweep": [k, op]})
+                cov.hit("oracle:json-sweep")
+                if f and f.sig not in sigs:
+                    sigs.add(f.sig); out.append(f)
     for i in chosen:
         objs_, _ = make_doc(seed, i, depth)
         root_ = _xs.object_store_to_xml_element(_m.DictObjectStore(objs_))
